@@ -283,7 +283,7 @@ Ltac kstep2 :=
   first [ apply keeps_int0 | apply keeps_float0 | apply keeps_get_group | apply keeps_get_param | kstep ].
 
 Lemma keeps_update_header : forall b, keepsT (update_header f_key f_tosize f_div b).
-Proof. intros b. unfold update_header. repeat kstep2. Qed.
+Proof. intros b. unfold update_header, uh_rate_points, uh_analogs, uh_frames, byframe_step, analog_rate_step. repeat kstep2. Qed.
 
 (* ---------- c3d::parameter ---------- *)
 Definition lookup (gs : list group) (g n : bstr) : outcome param :=
